@@ -441,6 +441,11 @@ func (u *clientUpdater) updateService(ctx context.Context, service ServiceDefini
 		}
 	}
 	for _, presentation := range presentations {
+		if presentation.ID == nil {
+			// a server-side registration always has an ID (jti); skip what a broken or malicious server sends
+			log.Logger().Warnf("Discovery Service returned a presentation without ID, skipping it (service=%s)", service.ID)
+			continue
+		}
 		// Check if the presentation already exists
 		credentialSubjectID, err := credential.PresentationSigner(presentation)
 		if err != nil {
